@@ -143,8 +143,64 @@ def kind_names(node):
     return {norm(node)}
 
 
+def field_requirements(repo, kinds):
+    """{class: {field: {attr: where}}}: `<obj>.<field>.<attr>` is read somewhere in selector.py where <obj> is known to be an instance of
+    <class> (self in a method of the class, or a name under an `isinstance(name, Class)` condition).  Whatever a constructor call puts in
+    <field> must therefore have <attr>."""
+    req = {}
+    for q, fi in repo.functions.items():
+        if fi.module != "selector":
+            continue
+        for n in walk_local(fi.node):
+            if not (isinstance(n, ast.Attribute) and isinstance(n.ctx, ast.Load) and isinstance(n.value, ast.Attribute) and isinstance(n.value.value, ast.Name)):
+                continue
+            obj, field, attr = n.value.value.id, n.value.attr, n.attr
+            owners = set()
+            if obj == "self" and fi.cls and fi.cls.rsplit(".", 1)[-1] in kinds:
+                owners.add(fi.cls.rsplit(".", 1)[-1])
+            for c in conds(n, fi.node):
+                for k in kinds:
+                    if c == f"isinstance({obj}, {k})":
+                        owners.add(k)
+            for k in owners:
+                req.setdefault(k, {}).setdefault(field, {}).setdefault(attr, f"{q}: {norm(n)}")
+    return req
+
+
+def init_params(repo, kind):
+    for c in repo.mro("selector." + kind):
+        for n in repo.classes[c].body:
+            if isinstance(n, ast.FunctionDef) and n.name == "__init__":
+                return [a.arg for a in n.args.args[1:]], {t.attr: norm(st.value) for st in n.body if isinstance(st, ast.Assign) for t in st.targets
+                                                         if isinstance(t, ast.Attribute) and norm(t.value) == "self" and isinstance(st.value, ast.Name)}
+    return [], {}
+
+
 class KindFlow:
     """Flow-sensitive operand kinds inside one evaluation action."""
+
+    requirements = None     # set by run(): {class: {field: {attr: where}}}
+
+    def check_constructor(self, call, env):
+        kind = norm(call.func)
+        req = (self.requirements or {}).get(kind)
+        if not req:
+            return
+        params, stored = init_params(self.repo, kind)
+        given = dict(zip(params, call.args))
+        given.update({k.arg: k.value for k in call.keywords if k.arg})
+        for field, attrs in req.items():
+            src = stored.get(field, field)
+            if src not in given:
+                continue
+            ks = self.expr_kinds(given[src], env)
+            if ks is None:
+                continue
+            for attr, where in attrs.items():
+                self.checked += 1
+                lacking = sorted(k for k in ks if attr not in self.attrs.get(k, set()))
+                if lacking:
+                    self.findings.append((f"{kind}({field}={norm(given[src])})", f"{field}.{attr}", lacking, call.lineno))
 
     def __init__(self, repo, attrs):
         self.repo, self.attrs = repo, attrs
@@ -215,6 +271,8 @@ class KindFlow:
             for part in ([e.key, e.value] if isinstance(e, ast.DictComp) else [e.elt]):
                 self.check_expr(part, inner)
             return
+        if isinstance(e, ast.Call) and isinstance(e.func, ast.Name):
+            self.check_constructor(e, env)
         if isinstance(e, ast.Attribute) and isinstance(e.value, ast.Name) and e.value.id in env and env[e.value.id] is not None and isinstance(e.ctx, ast.Load):
             self.checked += 1
             lacking = sorted(k for k in env[e.value.id] if e.attr not in self.attrs.get(k, set()))
@@ -426,6 +484,8 @@ def run(repo, chk):
     # ---------------- R18.2
     attrs = {"Element": class_attrs(repo, "selector.Element"), "Call": class_attrs(repo, "selector.Call"), "list": set(dir(list)), "str": set(dir(str)),
              "VSymbol": class_attrs(repo, "selector.VSymbol"), "VCall": class_attrs(repo, "selector.VCall"), "VKeyword": class_attrs(repo, "selector.VKeyword")}
+    KindFlow.requirements = field_requirements(repo, set(attrs) - {"list", "str"})
+    chk.analysed["constructor field requirements (class.field needs attr)"] = sorted(f"{k}.{f}.{a}" for k, fs in KindFlow.requirements.items() for f, as_ in fs.items() for a in as_)
     actions = [fi for q, fi in repo.functions.items() if fi.module == "selector" and
                any(isinstance(d, ast.Call) and isinstance(d.func, ast.Attribute) and d.func.attr == "register_action" for d in fi.node.decorator_list)]
     for fi in sorted(actions, key=lambda f: f.qual) + [repo.func("selector._guarantee_call"), repo.func("selector._select")]:
@@ -457,6 +517,10 @@ def run(repo, chk):
     kf = KindFlow(repo, attrs)
     kf.block(fx.body, {})
     chk.fixture("R18.2", "clone on an unchecked operand", True, bool(kf.findings))
+    fx = parse_fixture("def vmake_keyword(node, key, value, context):\n    key = value_evaluate(key)\n    value = value_evaluate(value)\n    return VKeyword(key, value)\n").body[0]
+    kf = KindFlow(repo, attrs)
+    kf.block(fx.body, {})
+    chk.fixture("R18.2", "a keyword built from an unchecked key (VCall.eval reads arg.key.value)", True, bool(kf.findings))
     fx = parse_fixture("def f(selector):\n    selector = parse(selector)\n    if not isinstance(selector, Call):\n        raise SelectorError(', '.join(p.encode() for p in selector))\n    return selector\n").body[0]
     kf = KindFlow(repo, attrs)
     kf.block(fx.body, {})
